@@ -29,7 +29,7 @@ setup = _orm.setup
 
 P_OPS = ["mk", "mk", "mk_child", "mk_child", "set", "set_parent", "tag_add", "follow", "node_parent", "q_ops", "g_ops", "m_ops", "set_p", "flush",
          "commit", "h_doc", "k_rename"]
-T_OPS = ["mk", "mk", "mk", "mk_child", "mk_child", "set", "set", "set", "set_parent", "set_parent", "bs_append", "bs_remove", "bs_replace",
+T_OPS = ["label", "set_k", "mk", "mk", "mk", "mk_child", "mk_child", "set", "set", "set", "set_parent", "set_parent", "bs_append", "bs_remove", "bs_replace",
          "tag_add", "tag_remove", "node_parent", "follow", "unfollow", "k_rename", "h_doc", "delete", "delete", "flush", "flush", "requery",
          "get", "lazy", "lazy", "q_ops", "g_ops", "g_ops", "mut_data", "mut_items", "m_ops", "m_ops", "begin_nested", "sp_commit", "sp_rollback",
          "set_p", "read"]
